@@ -80,6 +80,11 @@ CLAIMED = {
         "level": "Decides that dependency edges are recorded at every resolution site, that the order is gated by the cycle/context checks and honoured by both lowerings, and that each constant is initialised once after finalisation; Tarjan's correctness and graph completeness for all programs are not decided.",
         "note": "Partial: clauses D1-D3.",
     },
+    "C19": {
+        "technique": "HIR table extraction of the exit-code and verdict tables, MIR def-use error discipline over every fallible step of cli_inner, counting/aggregation shape of run_tests, cross-site agreement of the test-name prefix literal (incl. format_args pieces) and its lexical unspellability",
+        "level": "Decides the small table-like clauses X1-X3 exhaustively (all arms, all call sites); what a particular script's tests do is not decided.",
+        "note": "Partial (thin): clauses X1-X3.",
+    },
 }
 _PENDING = "check under construction in this session; not yet claimed"
 NOT_APPLICABLE = {p: _PENDING for p in
